@@ -684,6 +684,20 @@ func (x *LabelExec) Apply(op drv.Op) (handled bool, v *drv.Violation, err error)
 		}
 		old := pick(r, bodies)
 		nl := x.M.MaxEver + 100 + uint64(r.IntN(50))
+		if svs := lv.BodySVs()[old]; r.IntN(4) == 0 && len(svs) > 0 {
+			// onto the id of one of the body's own supervoxels, if no body carries that id now
+			cand := pick(r, svs)
+			free := cand != old
+			for _, b := range bodies {
+				if b == cand {
+					free = false
+				}
+			}
+			if free {
+				nl = cand
+				w.Stats.Probe("renumber-onto-own-supervoxel-id")
+			}
+		}
 		st, body, e := x.post(x.base(op.V)+"/renumber", jsonU64s([]uint64{nl, old}))
 		if e != nil {
 			return true, nil, e
@@ -728,7 +742,12 @@ func (x *LabelExec) Apply(op drv.Op) (handled bool, v *drv.Violation, err error)
 			if e != nil {
 				return true, nil, e
 			}
-			if st == 200 && (bad == "0" || bad == "18446744073709551615") { // the other two are enormous but legal
+			var got struct{ Start, End uint64 }
+			cnt, _ := strconv.ParseUint(bad, 10, 64)
+			// an enormous count is legal as long as the range handed out is real: with the counter
+			// still at 0 even 2^64-1 labels fit ([1, 2^64-1]); what must never be answered is a
+			// count of zero, an end below the start, or a range of another length than asked for
+			if st == 200 && (bad == "0" || json.Unmarshal(body, &got) != nil || got.End < got.Start || got.End-got.Start+1 != cnt) {
 				return true, &drv.Violation{Prop: "C12", Oracle: "label-counter-wrap", Sig: "nextlabel accepts a count of zero or one that wraps the label counter",
 					Detail: fmt.Sprintf("POST nextlabel/%s -> 200 %s", bad, trunc(body))}, nil
 			}
@@ -1091,6 +1110,38 @@ func (x *LabelExec) CheckVersion(v int, deep bool) (*drv.Violation, error) {
 		add(drv.GET(fmt.Sprintf("%s/sparsevol/%d", base, b)), "sparsevol (rles)", func(r proto.Resp) string {
 			return cmpRuns(r, 12, set, fmt.Sprintf("body %d", b))
 		})
+		// bounded forms: voxel bounds for GET (exact), block-expanded bounds for HEAD
+		if len(set) > 0 {
+			var zs []int
+			for p := range set {
+				zs = append(zs, p[2])
+			}
+			sort.Ints(zs)
+			zlo, zhi := zs[len(zs)/3], zs[len(zs)*2/3]
+			inb := map[[3]int]bool{}
+			for p := range set {
+				if p[2] >= zlo && p[2] <= zhi {
+					inb[p] = true
+				}
+			}
+			add(drv.GET(fmt.Sprintf("%s/sparsevol/%d?format=srles&minz=%d&maxz=%d", base, b, zlo, zhi)), "sparsevol with z bounds", func(r proto.Resp) string {
+				return cmpRuns(r, 0, inb, fmt.Sprintf("body %d, z in [%d,%d]", b, zlo, zhi))
+			})
+			// HEAD: inside the body's z range -> 200; a slab of blocks beyond it -> 204
+			add(proto.Req{Client: "c0", Kind: "http", Method: "HEAD", URL: fmt.Sprintf("%s/sparsevol/%d?minz=%d&maxz=%d", base, b, zlo, zhi)}, "HEAD sparsevol with z bounds", func(r proto.Resp) string {
+				if r.Status != 200 {
+					return fmt.Sprintf("body %d has voxels with z in [%d,%d] but HEAD answers %d", b, zlo, zhi, r.Status)
+				}
+				return ""
+			})
+			far := (floorDiv(zs[len(zs)-1], g.B) + 2) * g.B
+			add(proto.Req{Client: "c0", Kind: "http", Method: "HEAD", URL: fmt.Sprintf("%s/sparsevol/%d?minz=%d&maxz=%d", base, b, far, far+g.B-1)}, "HEAD sparsevol beyond the body", func(r proto.Resp) string {
+				if r.Status != 204 {
+					return fmt.Sprintf("body %d has no voxel with z >= %d but HEAD with minz=%d answers %d", b, far, far, r.Status)
+				}
+				return ""
+			})
+		}
 		blocks := map[[3]int]bool{}
 		var mn, mxp [3]int
 		first := true
